@@ -92,6 +92,37 @@ def run(chk):
         a = repo.func(rel, f"{cname}.associate_network", "C10.R3")
         r = repo.func(rel, f"{cname}.remove_network", "C10.R3")
         chk.saw(a); chk.saw(r)
+        # idiom "remember what was registered": remove_network undoes the pairs recorded in a list attribute
+        rec = None
+        for lp in [n for n in own_nodes(r.node) if isinstance(n, ast.For) and isinstance(n.iter, ast.Attribute) and dotted(n.iter.value) == "self" and isinstance(n.target, ast.Tuple)]:
+            tg = [src(e) for e in lp.target.elts]
+            if any(isinstance(c, ast.Call) and dotted(c.func) == "self.network.unsubscribe" and [src(x) for x in c.args] == tg for c in ast.walk(lp)):
+                rec = lp.iter.attr
+        if rec is not None:
+            cls_ = repo.cls(rel, cname, "C10.R3")
+            n_pairs = 0
+            for n in own_nodes(a.node):
+                if isinstance(n, (ast.Assign, ast.AugAssign)) and dotted(n.targets[0] if isinstance(n, ast.Assign) else n.target) == f"self.{rec}":
+                    n_pairs += sum(1 for x in ast.walk(n.value) if isinstance(x, ast.Tuple) and len(x.elts) == 2)
+            chk.floor("R3", n_pairs, floor, f"recorded (id, handler) pairs in {cname}.associate_network")
+            replay = [lp for lp in own_nodes(a.node) if isinstance(lp, ast.For) and src(lp.iter) == f"self.{rec}" and any(
+                isinstance(c, ast.Call) and dotted(c.func) == "network.subscribe" and isinstance(lp.target, ast.Tuple) and [src(x) for x in c.args] == [src(e) for e in lp.target.elts] for c in ast.walk(lp))]
+            chk.check(len(replay) == 1, "R3", f"{rel}:{cname}.associate_network | subscribes exactly the recorded pairs", a.loc(), f"no `for id, cb in self.{rec}: network.subscribe(id, cb)`")
+            for mname, meth in cls_.methods.items():
+                for c in [c for c in ast.walk(meth.node) if isinstance(c, ast.Call) and isinstance(c.func, ast.Attribute) and c.func.attr == "subscribe"]:
+                    if any(c is x for lp in replay for x in ast.walk(lp)):
+                        continue
+                    pair = [src(x) for x in c.args]
+                    recorded = any(isinstance(k, ast.Call) and dotted(k.func) == f"self.{rec}.append" and len(k.args) == 1 and isinstance(k.args[0], ast.Tuple)
+                                   and [src(x) for x in k.args[0].elts] == pair for k in ast.walk(meth.node))
+                    chk.check(recorded, "R3", f"{rel}:{cname}.{mname} | every subscription is recorded for removal", meth.loc(c),
+                              f"`{src(c)[:70]}` registers a handler that self.{rec} does not know: remove_network() leaves it subscribed, the old node's handler keeps seeing frames")
+            fr = ff_for(chk, r, "C10.R3")
+            drops = [n for n in fr.cfg.nodes if n.kind == "stmt" and isinstance(n.ast, ast.Assign) and dotted(n.ast.targets[0]) == "self.network"]
+            for d in drops:
+                late = [n for n in fr.cfg.reach_from(d) if node_calls(n, ".unsubscribe")]
+                chk.check(not late, "R3", f"{rel}:{cname}.remove_network | unsubscribe before dropping the network", r.loc(d.ast), "unsubscribe after self.network was reset")
+            continue
         subs = _pairs(a, "network.subscribe", "network")
         unsubs = _pairs(r, "self.network.unsubscribe", "self.network")
         chk.floor("R3", len(subs), floor, f"subscriptions in {cname}.associate_network")
@@ -223,7 +254,7 @@ def run(chk):
             nargs = len(c.args) + len(c.keywords)
             chk.check(nargs >= 2, "R7", f"{f.key} | {src(c)}", f.loc(c),
                       "unsubscribe(id) without a callback removes every handler of that id, including those of other owners")
-    chk.floor("R7", n_sites, 7, "unsubscribe call sites")
+    chk.floor("R7", n_sites, 3, "unsubscribe call sites")
     fired = _bare_fixture()
     chk.fixture("R7", "bare unsubscribe", fired)
 
